@@ -215,12 +215,15 @@ PROPS["C15"] = dict(
               "cells 0, others >= 1, equal labels only inside a class of every adjacency-closed labelling (ghost), every cell joined with "
               "its equal W/S/SW/SE neighbours (under a prophecy ghost labelling) - on top of _merge_regions (merge forest: links "
               "descend, classes preserved and joined, resize) and the helpers (_transform_points, _min_and_max, _diff_row, "
-              "_outside_domain).  The second stage (boundary walk, hole attribution, orientation, area) is bounded: point-in-polygon "
+              "_outside_domain), and _follow (the boundary walk stays on its region inside the raster, stored vertices are grid corners, "
+              "consecutive ones and the closing edge are axis-parallel and non-degenerate, the ring is closed; cvc5 discharges the row "
+              "arithmetic).  Losslessness, orientation, area, hole attribution are bounded: point-in-polygon "
               "rasterisation round trip, exhaustive over small rasters and random larger ones (JIT on)",
-    not_decided=["losslessness / orientation / area / hole attribution are topological facts about the boundary walk (_follow, _scan): bounded only",
+    not_decided=["losslessness / orientation / area / hole attribution are topological facts about the boundary walk as a whole (_scan; that _follow returns to its start enclosing exactly the region): bounded only",
                  "rasters outside the labelling contract's domain (non-finite values, values on which the isclose test is not equality): bounded only",
                  "more than 2**32 - 1 provisional region ids (RuntimeError by design)"],
-    assumptions=["_is_close (numba generated_jit dispatcher) is trusted: its two lambdas are pinned on the AST; on the domain both mean equality",
+    assumptions=["_follow: the second pass retraces the first (buffer size), assumed at the loop head of pass 1",
+                 "_is_close (numba generated_jit dispatcher) is trusted: its two lambdas are pinned on the AST; on the domain both mean equality",
                  "prophecy argument: the completeness postcondition holds for every region-id labelling dd under `dd == the flattened lookup`; "
                  "instantiating dd with the lookup the function computes discharges the premise (DESIGN section 4, C15)"],
     trusted_base=[],
